@@ -1,6 +1,7 @@
 import FitModel.DecProg
 import FitModel.DecoderApi
 import FitModel.Raw
+import FitModel.Wire
 /-!
 Definitions of the links between the decoder models (core Lean only: this module is also linked into the model driver,
 which cross-checks the links on generated streams — `Driver/Links.lean`).
@@ -155,6 +156,49 @@ def facFdOK (fac : Factory) : Bool :=
 /-- every base type the factory hands out is a valid one (otherwise `UnmarshalValue` fails with an error (D) has no
 counterpart for: its tie runs the standard factory) -/
 def facBtOK (fac : Factory) : Bool := fac.all fun e => _root_.Fit.Value.btValid e.info.bt
+
+/-! ## (A) the wire-level decoder against (D): the common observable -/
+
+/-- what the wire model (A) and the reader-client model (D) both report of a run: definitions with their contents; per
+message the header byte, the global number and the bytes of every field of non-zero size under its number (developer
+payloads are not comparable: (A) keeps the bytes of every developer field, (D) those with a field description; the
+timestamp (A) reconstructs is a value — see `apiOf`); per sequence header and CRCs -/
+inductive WEv
+  | def_ (header arch mesgNum : Nat) (fields devs : List (Nat × Nat × Nat))
+  | msg (header mesgNum : Nat) (payload : List (Nat × List Nat))
+  | seq (size pv prof ds hcrc fcrc : Nat)
+  deriving DecidableEq, Repr
+
+def wevOfA : Wire.Ev → WEv
+  | .item (.def_ _ d) => .def_ d.header d.arch d.mesgNum (d.fields.map fun f => (f.num, f.size, f.bt)) (d.devs.map fun f => (f.num, f.size, f.idx))
+  | .item (.data r) => .msg r.header r.num ((r.fields.filter fun p => p.1.size != 0).map fun p => (p.1.num, p.2))
+  | .seq f => .seq f.hdr.size f.hdr.protoVer f.hdr.profileVer f.hdr.dataSize f.hdr.crc f.crc
+
+def wevOfD : DecProg.Ev → WEv
+  | .def_ h a m f d => .def_ h a m f d
+  | .msg h m _ _ vals _ => .msg h m vals
+  | .seq size pv prof ds hcrc fcrc _ => .seq size pv prof ds hcrc fcrc
+
+def errAofD : DecProg.Err → Wire.Err
+  | .io _ => .eof
+  | .notFit => .notFit
+  | .crc => .crcMismatch
+  | .defMissing => .defMissing
+  | .invalidBaseType => .invalidBaseType
+
+/-- (A)'s run in the common form -/
+def wireObsA (r : List Wire.Ev × Option Wire.Err) : List WEv × Option Wire.Err := (r.1.map wevOfA, r.2)
+/-- (D)'s run in the common form -/
+def wireObsD (o : DecProg.Out) : List WEv × Option Wire.Err := (o.evs.map wevOfD, o.status.map errAofD)
+
+/-- every field description (A)'s run records carries a valid base type: the `field_description` records among its items
+have a valid byte in (the last) field 2 (none: 255, invalid). Outside this, (A) is known to be wrong (notes/links.md D1). -/
+def fdValidA (evs : List Wire.Ev) : Bool :=
+  evs.all fun
+    | .item (.data r) =>
+      r.num != Fit.Gen.Integ.mesgNumFieldDescription ||
+        DecProg.validBaseType (DecProg.lastVal ((r.fields.filter fun p => p.1.size != 0).map fun p => (p.1.num, p.2)) Fit.Gen.Integ.fdFitBaseTypeId)
+    | _ => true
 
 /-! ## the independent framing spec → the raw decoder -/
 
